@@ -146,7 +146,7 @@ def run(c):
     c.assumptions += [
         "memory accesses are observed by PROT_NONE guard pages directly before/after exact-size copies of the bytes a view reported (TLC cannot observe memory); reads inside the view's own bytes are by definition allowed",
         "the catalogue of safe functions is the hand-written list in harness/vh-sciparse/src/bin/wirelayout.rs (every pub fn of the *View types callable without unsafe at the pinned commit); ScmpUnknownMessageView::set_message_type is in the list only while a compile probe shows it is a safe fn",
-        "sequences: all accessors after no mutator on every accepted vector; after each single safe mutator (quick: on vectors not flagged `pairs` every 8th mutator, rotating with the vector index; thorough: all); after every ordered pair of safe mutators on the vectors flagged `pairs` (quick: a 300-sequence stride sample of the pair space per view and vector, rotating with the vector index; thorough: all pairs, plus a 3000-sequence stride sample of the mutator TRIPLES per view and vector)",
+        "sequences: all accessors after no mutator on every accepted vector; after each single safe mutator (quick: on vectors not flagged `pairs` every 8th mutator, rotating with the vector index; thorough: all); after every ordered pair of safe mutators on the vectors flagged `pairs` (quick: a 300-sequence stride sample of the pair space per view and vector, rotating with the vector index; thorough: all pairs, plus a 2000-sequence stride sample of the mutator TRIPLES per view and vector)",
         "exhaustive over the factored product of MC_WireLayout, not over all byte strings; both cargo profiles (dev: debug assertions + overflow checks, release: none)",
     ]
     c.cov["rule"] = ("vectors: non-trivial = at least one view constructor accepted the byte string (the accessor/mutator catalogue ran); "
